@@ -303,7 +303,8 @@ def parent_id_round_trip(prog, an, rep):
               'pull_request_description.md', 'the first number / field in '
               'the description template is %r' % first)
     g = need_func(an, GWF + '.handle_parent_pull_request')
-    fa = [x for x in prog.calls_in(g) if dotted(x.func) == 're.findall']
+    fa = [x for x in prog.calls_in(g)
+          if dotted(x.func) in ('re.findall', 're.search')]
     ok = len(fa) == 1 and const_value(fa[0].args[0]) == r'\d+' and \
         src(fa[0].args[1]) == g.params[1] + '.description'
     # (`parent_id, *_ = ids` reaches the rules as `parent_id = ids[0]`)
@@ -319,6 +320,16 @@ def parent_id_round_trip(prog, an, rep):
 
 def _first_number(g, v):
     """v is <re.findall(r'\\d+', <child>.description)>[0]."""
+    v = substitute_locals(g, v)
+    # re.search(r'\d+', d).group() / .group(0): the first number too
+    if isinstance(v, ast.Call) and isinstance(v.func, ast.Attribute) and \
+            v.func.attr == 'group' and not v.keywords and (
+                not v.args or (len(v.args) == 1 and is_const(v.args[0], 0))):
+        base = substitute_locals(g, v.func.value)
+        return isinstance(base, ast.Call) and \
+            dotted(base.func) == 're.search' and len(base.args) == 2 and \
+            const_value(base.args[0]) == r'\d+' and \
+            src(base.args[1]) == g.params[1] + '.description'
     if not (isinstance(v, ast.Subscript) and is_const(v.slice, 0)):
         return False
     base = substitute_locals(g, v.value)
@@ -391,14 +402,27 @@ def redirects(prog, an, rep):
     # the child's own id when it is not a child): whatever the local is
     # called
     ok = False
-    if len(pj) == 1:
-        m = re.search(r'get_pull_request\(int\((\w+)\)\)', src(pj[0]))
-        if m:
-            vals = [v for _, v in stores_to(g, m.group(1))]
-            ok = any(v is not None and _first_number(g, v)
-                     for v in vals) and any(
-                v is not None and src(v) == g.params[1] + '.id'
-                for v in vals) and len(vals) == 2
+    vals = []
+    for x in pj:
+        ids = [y.args[0].args[0] for y in ast.walk(x)
+               if isinstance(y, ast.Call) and
+               isinstance(y.func, ast.Attribute) and
+               y.func.attr == 'get_pull_request' and len(y.args) == 1 and
+               isinstance(y.args[0], ast.Call) and
+               src(y.args[0].func) == 'int' and len(y.args[0].args) == 1]
+        if len(ids) != 1:
+            vals.append(None)
+            continue
+        e = ids[0]
+        if isinstance(e, ast.Name) and len(stores_to(g, e.id)) > 1:
+            vals += [v for _, v in stores_to(g, e.id)]
+        else:
+            vals.append(e)
+    if 1 <= len(pj) <= 2 and vals and None not in vals:
+        kinds = ['parent' if _first_number(g, v) else
+                 'own' if src(substitute_locals(g, v)) ==
+                 g.params[1] + '.id' else '?' for v in vals]
+        ok = sorted(kinds) == ['own', 'parent']
     rep.check(ok, R, g.qname + ': evaluates the parent pull request',
               g.where(), 'builds %s' % [src(x) for x in pj])
     h = need_func(an, GWF + '.handle_commit')
